@@ -236,9 +236,9 @@ class LinearMatrix(FixedLayout, Linear):
         >>> e1, e2 = l.basis_vectors_lst
         >>> rot_90 = transformations.LinearMatrix.from_function(lambda x: (1 + e1*e2)*x*(1 - e1*e2)/2, l)
         >>> rot_90(e1)
-        (1.0^e2)
+        -(1.0^e2)
         >>> rot_90(e2)
-        -(1.0^e1)
+        (1.0^e1)
         >>> rot_90(e1*e2)
         (1.0^e12)
 
@@ -260,7 +260,8 @@ class LinearMatrix(FixedLayout, Linear):
                     "result of func() is from the wrong layout, expected: {}, "
                     "got {}.".format(layout_dst, d.layout))
 
-        matrix = np.array([b_dst.value for b_dst in blades_dst])
+        # the image of the i-th source blade is the i-th *column*
+        matrix = np.array([b_dst.value for b_dst in blades_dst]).T
         return cls(matrix, layout_src, layout_dst)
 
     @classmethod
@@ -282,9 +283,9 @@ class LinearMatrix(FixedLayout, Linear):
         >>> e1, e2 = l.basis_vectors_lst
         >>> rot_90 = transformations.LinearMatrix.from_rotor(1 + e1*e2)
         >>> rot_90(e1)
-        (1.0^e2)
+        -(1.0^e2)
         >>> rot_90(e2)
-        -(1.0^e1)
+        (1.0^e1)
         >>> rot_90(e1*e2)
         (1.0^e12)
         """
